@@ -133,11 +133,12 @@ class DistanceReparameterisation(RescaleToBounds):
         else:
             self.has_prime_prior = False
 
-        self.detect_edges_kwargs["allowed_bounds"] = allowed_bounds
-        self.detect_edges_kwargs["allow_both"] = allow_both
-        self.detect_edges_kwargs["x_range"] = self.prior_bounds[
-            self.parameters[0]
-        ]
+        if self.boundary_inversion:
+            self.detect_edges_kwargs["allowed_bounds"] = allowed_bounds
+            self.detect_edges_kwargs["allow_both"] = allow_both
+            self.detect_edges_kwargs["x_range"] = self.prior_bounds[
+                self.parameters[0]
+            ]
 
 
 class DeltaPhaseReparameterisation(Reparameterisation):
